@@ -121,7 +121,7 @@ theorem available_true_justified (cfg : Cfg) (rm : Remotes) (s : Sys) (mem : OSe
         Pko.Props.C03.Clean cfg mem.owner (lookupPrev s mem) (rm.recon mem) v.1 v.2)) ∧
     final.controllerOf = co ∧
     ∃ r, (activePhases cfg rm s mem).1.setEvents =
-      s.setEvents ++ [.statusUpdate final.name r final.revision final.conds final.controllerOf] := by
+      s.setEvents ++ [.statusUpdate final.name r final.revision final.conds final.controllerOf final.remotePhases] := by
   intro final
   have hav : condTrue final.conds "Available" = failing.isNone := by
     simp only [final]
